@@ -27,9 +27,14 @@ type Clause struct {
 	Pos   string // file:line
 }
 
+// GhostStmt: gh_x[Idx] = Val, executed at position At ("entry", "loop k entry", "loop k latch").
 type GhostStmt struct {
+	Name string
+	Idx  ast.Expr
+	Val  ast.Expr
+	At   string
+	Loop int
 	Text string
-	At   string // "entry", "return", ...
 }
 
 type Contract struct {
@@ -52,11 +57,15 @@ type Contract struct {
 	Props       []string // properties this function serves (closure roots)
 	Flags       map[string]string
 	Pos         string
+	GhostOut    []string
+	Ghosts      []*GhostStmt
+	DefParams   []string // define: parameter names
+	DefExpr     ast.Expr // define: body
 }
 
 var clauseKW = map[string]bool{"func": true, "closure": true, "iface": true, "extern": true, "typeinv": true, "lemma": true,
 	"results": true, "requires": true, "ensures": true, "modifies": true, "loop": true, "ghost": true, "trusted": true,
-	"strictslice": true, "pure": true, "maypanic": true, "flag": true, "props": true, "nooverflow": true, "property": true}
+	"strictslice": true, "pure": true, "maypanic": true, "flag": true, "props": true, "nooverflow": true, "property": true, "ghostout": true, "define": true, "is": true}
 
 var headRe = regexp.MustCompile(`^(requires|ensures|invariant|decreases)(\[[^\]]*\])?\s*(.*)$`)
 
@@ -206,6 +215,23 @@ func (cs *ContractSet) addClause(cur **Contract, pkgPath, pos, text string) erro
 			}
 		}
 		return nil
+	case "define":
+		// define name(p1, p2)  followed by  is EXPR
+		name := strings.TrimSpace(rest)
+		lp := strings.Index(name, "(")
+		if lp < 0 || !strings.HasSuffix(name, ")") {
+			return fmt.Errorf("%s: define needs name(params)", pos)
+		}
+		c := &Contract{Kind: "define", Pkg: pkgPath, LoopInv: map[int][]*Clause{}, LoopDec: map[int]*Clause{}, LoopMod: map[int][]string{}, Flags: map[string]string{}, Pos: pos}
+		for _, pn := range strings.Split(name[lp+1:len(name)-1], ",") {
+			if pn = strings.TrimSpace(pn); pn != "" {
+				c.DefParams = append(c.DefParams, pn)
+			}
+		}
+		c.Target = "define " + pkgPath + "." + strings.TrimSpace(name[:lp])
+		cs.ByTarget[c.Target] = c
+		*cur = c
+		return nil
 	case "func", "closure", "iface", "extern", "typeinv", "lemma":
 		c := &Contract{Kind: kw, Pkg: pkgPath, LoopInv: map[int][]*Clause{}, LoopDec: map[int]*Clause{}, LoopMod: map[int][]string{}, Flags: map[string]string{}, Pos: pos}
 		name := strings.TrimSpace(rest)
@@ -250,6 +276,55 @@ func (cs *ContractSet) addClause(cur **Contract, pkgPath, pos, text string) erro
 		for _, x := range strings.Split(rest, ",") {
 			c.Results = append(c.Results, strings.TrimSpace(x))
 		}
+	case "is":
+		e, err := parseSpecExpr(rest)
+		if err != nil {
+			return fmt.Errorf("%s: %v", pos, err)
+		}
+		c.DefExpr = e
+	case "ghostout":
+		for _, x := range strings.Split(rest, ",") {
+			c.GhostOut = append(c.GhostOut, strings.TrimSpace(x))
+		}
+	case "ghost":
+		// ghost gh_x[E1] = E2 at entry | at loop k entry | at loop k latch
+		at := strings.LastIndex(rest, " at ")
+		if at < 0 {
+			return fmt.Errorf("%s: ghost statement needs 'at <position>'", pos)
+		}
+		stmt, where := strings.TrimSpace(rest[:at]), strings.TrimSpace(rest[at+4:])
+		eqi := findTop(stmt, "=")
+		if eqi < 0 {
+			return fmt.Errorf("%s: ghost statement needs '='", pos)
+		}
+		lhs, rhs := strings.TrimSpace(stmt[:eqi]), strings.TrimSpace(stmt[eqi+1:])
+		lb := strings.Index(lhs, "[")
+		if lb < 0 || !strings.HasSuffix(lhs, "]") {
+			return fmt.Errorf("%s: ghost lhs must be gh_x[index]", pos)
+		}
+		g := &GhostStmt{Name: strings.TrimSpace(lhs[:lb]), Text: rest}
+		var err error
+		if g.Idx, err = parseSpecExpr(lhs[lb+1 : len(lhs)-1]); err != nil {
+			return fmt.Errorf("%s: %v", pos, err)
+		}
+		if g.Val, err = parseSpecExpr(rhs); err != nil {
+			return fmt.Errorf("%s: %v", pos, err)
+		}
+		wf := strings.Fields(where)
+		switch {
+		case len(wf) == 1 && wf[0] == "entry":
+			g.At = "entry"
+		case len(wf) == 3 && wf[0] == "loop":
+			k, err := strconv.Atoi(wf[1])
+			if err != nil {
+				return fmt.Errorf("%s: bad loop ordinal in ghost position", pos)
+			}
+			g.Loop = k
+			g.At = wf[2]
+		default:
+			return fmt.Errorf("%s: bad ghost position %q", pos, where)
+		}
+		c.Ghosts = append(c.Ghosts, g)
 	case "trusted":
 		c.Trusted = true
 	case "strictslice":
